@@ -125,8 +125,14 @@ package bufconn
 //@ func (c *conn) SetReadDeadline(t time.Time) (err error)
 //@   safety off
 //@   opt frame=off
-//@   ensures a-new-or-cleared-deadline-forgets-an-earlier-timeout: !cast(c.Reader, "*pipe").rtimedout
+//@   ghost armed int = 0
+//@   at call AfterFunc#?: assert the-earlier-timeout-is-forgotten-before-a-new-timer-is-armed: !cast(c.Reader, "*pipe").rtimedout
+//@   at call AfterFunc#?: ghost armed := armed + 1
+//@   ensures local-a-cleared-deadline-forgets-an-earlier-timeout: armed == 0 ==> !cast(c.Reader, "*pipe").rtimedout
 //@ func (c *conn) SetWriteDeadline(t time.Time) (err error)
 //@   safety off
 //@   opt frame=off
-//@   ensures a-new-or-cleared-deadline-forgets-an-earlier-timeout: !cast(c.Writer, "*pipe").wtimedout
+//@   ghost armed int = 0
+//@   at call AfterFunc#?: assert the-earlier-timeout-is-forgotten-before-a-new-timer-is-armed: !cast(c.Writer, "*pipe").wtimedout
+//@   at call AfterFunc#?: ghost armed := armed + 1
+//@   ensures local-a-cleared-deadline-forgets-an-earlier-timeout: armed == 0 ==> !cast(c.Writer, "*pipe").wtimedout
